@@ -11,6 +11,19 @@ AGENT_OVERLAY = {"agent/zz_verif_common_test.go": "agent/verif_common_test.go",
 KIND = {0: "FOk", 1: "FNetErr", 2: "F5xx", 3: "FStatus", 4: "FGarbage", 5: "FGarbage"}
 
 
+def window_ok(lists, k=1000):
+    """python mirror of DedupCheck.window_okb: whenever an ID is listed again, fewer than k other distinct IDs were listed since its last listing"""
+    rec = []
+    for l in lists:
+        for x in l:
+            if x in rec:
+                if rec.index(x) >= k:
+                    return False
+                rec.remove(x)
+            rec.insert(0, x)
+    return True
+
+
 class C04(Prop):
     pid = "C04"
     props_file = "Props/C04.v"
@@ -47,7 +60,7 @@ class C04(Prop):
                 res.append(("agent:poll-loop-hang", h["error"], {"history": h.get("name")}))
                 continue
             ids = {i for l in h["lists"] for i in l}
-            inside = len(ids) <= 1000
+            inside = window_ok(h["lists"])
             for i in sorted(ids):
                 inv = h["invocations"].get(i, 0)
                 script = h["fetch_scripts"].get(i, [])
